@@ -1,4 +1,5 @@
 import IceProofs.Sys2C01Main
+import IceProofs.Sys2C01LiveNoise
 /-!
 # C01 — two agents converge on the same, working candidate pair (SAFETY part)
 
@@ -15,8 +16,10 @@ the argument: a success response validates a pair only through the transaction i
 request, and transaction ids of the two agents are disjoint by the tag (modelling assumption for
 "96-bit random ids never collide").
 
-Not proved here (see notes/C01.md): liveness (`C01_converges`); the mirror theorem only in the partial
-form `C01_mirror_partial` (one local address per agent).
+Liveness: `C01_converges` (every fair schedule) is NOT proved; proved are the single-agent progress lemmas
+(`C01_progress_*`) and convergence along the canonical fair rounds from every reachable `ReadyD` state, with an
+explicit round bound (`C01_converges_round_partial`), see the last section and notes/C01-live.md.  The mirror theorem
+only in the partial form `C01_mirror_partial` (one local address per agent).
 -/
 namespace IceProps.C01
 open IceModel.AgentCore IceModel.Sys2 IceProofs.Sys2Run IceProofs.C01
@@ -307,5 +310,253 @@ example : Sys.Init s0NoHairpin ∧ LocalsSane s0NoHairpin.nat sched ∧ SingleAd
 
 /-- `NatSane` holds e.g. for the empty mapping and for a mapping that is a permutation. -/
 example : NatSane [] ∧ NatSane [(16, 336), (336, 16)] := by decide
+
+/-! ## Liveness (partial): progress of one agent, convergence along the canonical fair rounds
+
+FULL statement `C01_converges` (NOT proved): for every reachable state in which both agents are started in opposite
+roles with each other's credentials and candidates, some candidate pair is reachable in both directions and not out
+of retry budget on the controlling side, and for EVERY infinite schedule whose suffix is loss-free, delivers each
+datagram within the transaction timeout and ticks both agents infinitely often, both agents eventually notify
+Connected (and the selected pairs are mirror images).
+
+PROVED: (1) the progress steps of one agent, for all states and parameters (`C01_progress_*`); (2) convergence along
+ONE family of fair schedules — the canonical rounds `roundsEvs` (advance the clock to the controlling agent's next
+tick — the controlled agent runs every tick that is due —, then three times "deliver everything in flight", in FIFO
+order; zero latency, no loss, no duplication) — from EVERY state reachable by ANY prefix (loss, duplication,
+reordering, restarts, … included) that satisfies the decidable start condition `ReadyD`, for ALL topologies (any
+number of candidates, NAT, one-way links), within an explicit number of rounds.  (3) the same with ARBITRARY extra deliveries and duplications (any datagram in
+flight, any order, any number) inserted before every round (`C01_converges_noisy_rounds_partial`; the stability lemmas
+`Ob.keep`, `Ch1.keep`, `DP.keep`, `LinkedJ.keep`, `SysOK.deliver` hold for every delivery / duplication).  MISSING for
+the full statement: extra events INSIDE a round (between the tick and the waves), extra clock advances, an abstract
+fairness predicate on arbitrary index-based schedules ("every datagram in flight is delivered within the transaction
+timeout"), and the start states excluded by `ReadyD` (see notes/C01-live.md). -/
+
+open IceProofs.C01Live IceProofs.Agent in
+/-- **progress: a tick pings.**  `pingAllCandidates` at `now` emits, for every listed pair that is Waiting / In-Progress,
+within its request budget and whose ends resolve, a Binding request from the local to the remote address carrying
+the agent's credentials and role, and records the transaction (pair ids unique, pending ids issued by the counter). -/
+theorem C01_progress_tick_pings (a : Agent) (now : Nat) (hi : IceProofs.C03.IdsOK a) (hp : PendOK a) (p0 : Pair)
+    (hp0 : p0 ∈ a.checklist) (hst : p0.state = .waiting ∨ p0.state = .inProgress)
+    (hb : p0.reqCount ≤ a.cfg.maxBindingRequests) (l r : Cand) (hl : a.localOf p0.l = some l) (hr : a.remoteOf p0.r = some r) :
+    ∃ m, Out.dgram l.addr r.addr m ∈ (a.pingAll now).2 ∧ IsReq a false m ∧
+      (a.pingAll now).1.pending.find? (·.tid == m.tid) = some (pendOf m.tid l.addr r.addr r.net false now) :=
+  pingAll_emits a now hi hp p0 hp0 hst hb l r hl hr
+
+open IceProofs.C01Live IceProofs.Agent in
+/-- **progress: a request is answered.**  An authenticated Binding request without role conflict, from a source that
+is a known remote candidate or passes the remote-IP filter (peer-reflexive discovery), is answered with a success
+response from the receiving local candidate's address to the source address. -/
+theorem C01_progress_request_answered (a : Agent) (now : Nat) (l : Cand) (src : Nat) (m : Msg) (ha : AuthRequest a m)
+    (hnc : NoConflict a m) (hsrc : SrcOK a l src) :
+    Out.dgram l.addr src (respMsg a m) ∈ (a.handleInbound now l src m).2 :=
+  request_answered a now l src m ha hnc hsrc
+
+open IceProofs.C01Live IceProofs.Agent in
+/-- **progress: a matching response validates, a nomination selects.**  A success response verifying under the remote
+password, from a known remote candidate, matching a live transaction sent from this local candidate to that source,
+makes the pair `findPair l r` Succeeded; a USE-CANDIDATE transaction of a controlling agent selects it when nothing is
+selected; on a controlled agent a pair marked `nomOnSuccess` gets selected unless a pair is selected already. -/
+theorem C01_progress_response_validates (a : Agent) (now : Nat) (l : Cand) (src : Nat) (m : Msg) (r : Cand) (pd : Pending)
+    (p : Pair) (hcls : m.cls = 2) (hmeth : m.method = 1) (hkey : m.key = some a.remotePwd)
+    (hr : a.findRemote l.net src = some r) (hpd : a.pending.find? (·.tid == m.tid) = some pd)
+    (hyoung : now - pd.ts < maxBindingRequestTimeout) (hnet : pd.net = l.net) (hdest : pd.dest = src)
+    (hsrc : pd.src = l.addr) (hp : a.findPair l r = some p) :
+    (∃ p' ∈ (a.handleInbound now l src m).1.checklist, p'.id = p.id ∧ p'.state = .succeeded)
+    ∧ (a.controlling = true → pd.useCand = true → pd.nom = none → (a.handleInbound now l src m).1.selected.isSome = true)
+    ∧ (a.controlling = false → p.nomOnSuccess = true → p.deferredNom = none →
+        (a.handleInbound now l src m).1.selected.isSome = true) :=
+  response_validates a now l src m r pd p hcls hmeth hkey hr hpd hyoung hnet hdest hsrc hp
+
+open IceProofs.C01Live in
+/-- **progress: the controlling agent nominates.**  The single tick at `T = nextTick` of a `Good` controlling agent
+(started, open, full, no timeout due before the horizon `H`) without a selected pair but with a Succeeded pair, once
+the longest acceptance wait has passed since the selector started, sends a USE-CANDIDATE request on the ends of a
+listed Succeeded pair and records the transaction. -/
+theorem C01_progress_nominates {T0 H T : Nat} {a : Agent} (hg : Good T0 H a) (hT : T ≤ H) (htk : a.nextTick = some T)
+    (hc : a.controlling = true) (hs : a.selected = none) (hsucc : ∃ p ∈ a.checklist, p.state = .succeeded)
+    (htime : a.selStart + Config.maxWait a.cfg ≤ T) :
+    ∃ p l r m, p ∈ a.checklist ∧ p.state = .succeeded ∧ a.localOf p.l = some l ∧ a.remoteOf p.r = some r ∧
+      Out.dgram l.addr r.addr m ∈ (step a (.advance T)).2 ∧ IsReq a true m ∧
+      (step a (.advance T)).1.pending.find? (·.tid == m.tid) = some (pendOf m.tid l.addr r.addr r.net true T) :=
+  agent_tick_nominate hg hT htk hc hs hsucc htime
+
+open IceProofs.C01Live IceProofs.Agent in
+/-- **progress: the controlled agent follows a nomination.**  A `Good` controlled agent (bookkeeping invariant of C06)
+that receives an authenticated USE-CANDIDATE request (no nomination value) from an unfiltered source has a selected
+pair afterwards, or has marked the pair the request arrived on `nomOnSuccess` and has a check of its own on that
+pair in flight and pending. -/
+theorem C01_progress_controlled_follows {T0 H now : Nat} {a : Agent} (h0 : T0 ≤ now) (hn : now ≤ H) (hg : Good T0 H a)
+    (hc6 : IceProofs.AgentC06.Inv a) {la src : Nat} {m : Msg} {l : Cand} (hl : a.localByAddr la = some l)
+    (ha : AuthRequest a m) (hnc : NoConflict a m) (hflt : a.cfg.blockedIPs.contains (ipOf src) = false)
+    (hctl : a.controlling = false) (huc : m.useCand = true) (hnom : m.nom = none) :
+    (step a (.inbound now la src m)).1.selected.isSome = true ∨
+    ∃ l' rc q mt, (step a (.inbound now la src m)).1.localByAddr la = some l' ∧
+      (step a (.inbound now la src m)).1.findRemote 0 src = some rc ∧
+      (step a (.inbound now la src m)).1.findPair l' rc = some q ∧ q.nomOnSuccess = true ∧
+      Out.dgram la src mt ∈ (step a (.inbound now la src m)).2 ∧ IsReq a false mt ∧
+      (step a (.inbound now la src m)).1.pending.find? (·.tid == mt.tid) = some (pendOf mt.tid la src 0 false now) :=
+  step_request_nominates h0 hn hg hc6 hl ha hnc hflt hctl huc hnom
+
+open IceProofs.C01Live in
+/-- **C01 convergence along the canonical fair rounds (partial).**  Let `s` be the state reached from an initial state
+by ANY prefix `pre` whose local candidate addresses survive the NAT round trip.  If `s` satisfies the decidable start
+condition `ReadyD` for the controlling agent `c`, a time `T0 ≤ now` and a horizon `H` that reaches 2 s beyond the later
+of the controlling agent's next tick and `nomTime` (= selector start + longest acceptance wait), and the controlling
+agent has a Succeeded pair or a pair under its request budget on a `Link` (both directions open, NAT round trips the
+identity, the two agents listening at the two ends), then for some `1 ≤ n ≤ roundBound = (nomTime − first tick) /
+minInterval + 1`: after the `n + 1` canonical rounds `roundsEvs c (n + 1) s` (clock advances and in-order deliveries
+only) BOTH agents have a selected pair and are in state Connected. -/
+theorem C01_converges_round_partial (s0 : Sys) (pre : List SysEv) (hi : Sys.Init s0) (hf : FreshSel s0)
+    (hs : LocalsSane s0.nat pre) (c : Bool) (T0 H : Nat) (hr : ReadyD pre c T0 H (Sys.runs s0 pre))
+    (hstart : HasSucc (Sys.runs s0 pre) c ∨ BudgetPairD c (Sys.runs s0 pre))
+    (hH : max (tickTime c 0 (Sys.runs s0 pre)) (nomTime c (Sys.runs s0 pre)) + 2000000000 ≤ H) :
+    ∃ n, 1 ≤ n ∧ n ≤ roundBound c (Sys.runs s0 pre) ∧
+      (∀ e ∈ roundsEvs c (n + 1) (Sys.runs s0 pre), isFairEv e = true) ∧
+      ∀ x, ((Sys.runs s0 (pre ++ roundsEvs c (n + 1) (Sys.runs s0 pre))).agent x).selected.isSome = true ∧
+           ((Sys.runs s0 (pre ++ roundsEvs c (n + 1) (Sys.runs s0 pre))).agent x).connState = .connected := by
+  have hri := ready_rinv hi hf hs hr
+  obtain ⟨n, h1, h2, h3⟩ := converge_bound hri (hstart.imp id BudgetPairD.budget) hH
+  refine ⟨n, h1, h2, roundsEvs_fair c (n + 1) _, fun x => ?_⟩
+  rw [Sys.runs_append, ← rounds_runs]
+  exact h3 x
+
+/-- the canonical rounds contain no API call: the local-address sets of the schedule are those of the prefix -/
+theorem localAddrsOf_rounds (isB : Bool) (pre : List SysEv) (suf : List SysEv)
+    (h : ∀ e ∈ suf, IceProofs.C01Live.isFairEv e = true) : localAddrsOf isB (pre ++ suf) = localAddrsOf isB pre := by
+  have hnil : localAddrsOf isB suf = [] := by
+    unfold localAddrsOf
+    rw [List.filterMap_eq_nil_iff]
+    intro e he
+    have := h e he
+    cases e <;> first | rfl | (simp [IceProofs.C01Live.isFairEv] at this)
+  have happ : localAddrsOf isB (pre ++ suf) = localAddrsOf isB pre ++ localAddrsOf isB suf := by
+    unfold localAddrsOf; rw [List.filterMap_append]
+  rw [happ, hnil, List.append_nil]
+
+theorem localAddrs_rounds (pre : List SysEv) (suf : List SysEv)
+    (h : ∀ e ∈ suf, IceProofs.C01Live.isFairEv e = true) : localAddrs (pre ++ suf) = localAddrs pre := by
+  have hnil : localAddrs suf = [] := by
+    unfold localAddrs
+    rw [List.filterMap_eq_nil_iff]
+    intro e he
+    have := h e he
+    cases e <;> first | rfl | (simp [IceProofs.C01Live.isFairEv] at this)
+  have happ : localAddrs (pre ++ suf) = localAddrs pre ++ localAddrs suf := by
+    unfold localAddrs; rw [List.filterMap_append]
+  rw [happ, hnil, List.append_nil]
+
+open IceProofs.C01Live in
+/-- **… and the selected pairs are mirror images** when each agent has one local address (`C01_mirror_partial`). -/
+theorem C01_converges_round_mirror_partial (s0 : Sys) (pre : List SysEv) (hi : Sys.Init s0) (hf : FreshSel s0)
+    (hs : LocalsSane s0.nat pre) (c : Bool) (T0 H : Nat) (hr : ReadyD pre c T0 H (Sys.runs s0 pre))
+    (hstart : HasSucc (Sys.runs s0 pre) c ∨ BudgetPairD c (Sys.runs s0 pre))
+    (hH : max (tickTime c 0 (Sys.runs s0 pre)) (nomTime c (Sys.runs s0 pre)) + 2000000000 ≤ H)
+    (a b : Nat) (h1 : SingleAddr pre a b) (hh : NoHairpin s0.nat s0.blocked pre) :
+    ∃ n, 1 ≤ n ∧ n ≤ roundBound c (Sys.runs s0 pre) ∧
+      ∀ pa pb la ra lb rb,
+        selectedPair (Sys.runs s0 (pre ++ roundsEvs c (n + 1) (Sys.runs s0 pre))).a = some pa →
+        selectedPair (Sys.runs s0 (pre ++ roundsEvs c (n + 1) (Sys.runs s0 pre))).b = some pb →
+        (Sys.runs s0 (pre ++ roundsEvs c (n + 1) (Sys.runs s0 pre))).a.localOf pa.l = some la →
+        (Sys.runs s0 (pre ++ roundsEvs c (n + 1) (Sys.runs s0 pre))).a.remoteOf pa.r = some ra →
+        (Sys.runs s0 (pre ++ roundsEvs c (n + 1) (Sys.runs s0 pre))).b.localOf pb.l = some lb →
+        (Sys.runs s0 (pre ++ roundsEvs c (n + 1) (Sys.runs s0 pre))).b.remoteOf pb.r = some rb →
+        mappedL s0.nat la.addr = rb.addr ∧ mappedL s0.nat lb.addr = ra.addr := by
+  obtain ⟨n, hn1, hn2, hfair, _⟩ := C01_converges_round_partial s0 pre hi hf hs c T0 H hr hstart hH
+  refine ⟨n, hn1, hn2, ?_⟩
+  intro pa pb la ra lb rb hpa hpb hla hra hlb hrb
+  have hr7 := hr.2.2.2.2.2.2.1
+  have hfull : ∀ x, ((Sys.runs s0 pre).agent x).cfg.lite = false := fun x => (hr7 x).1
+  -- configuration never changes
+  obtain ⟨LA, LB, hinv0⟩ := reach_inv hi hs (pre := pre) (fun e he => he)
+  have hs' : LocalsSane s0.nat (pre ++ roundsEvs c (n + 1) (Sys.runs s0 pre)) := by
+    unfold LocalsSane; rw [localAddrs_rounds pre _ hfair]; exact hs
+  obtain ⟨LA', LB', hinv1⟩ := reach_inv hi hs' (pre := pre ++ roundsEvs c (n + 1) (Sys.runs s0 pre)) (fun e he => he)
+  have hl0 := fun x => hinv0.lite_eq x
+  have hl1 := fun x => hinv1.lite_eq x
+  have hfa : (Sys.runs s0 (pre ++ roundsEvs c (n + 1) (Sys.runs s0 pre))).a.cfg.lite = false := by
+    have e1 := hl1 false; have e0 := hl0 false; have f := hfull false
+    simp only [Sys.agent, Bool.false_eq_true, if_false] at e1 e0 f
+    rw [e1, ← e0]; exact f
+  have hfb : (Sys.runs s0 (pre ++ roundsEvs c (n + 1) (Sys.runs s0 pre))).b.cfg.lite = false := by
+    have e1 := hl1 true; have e0 := hl0 true; have f := hfull true
+    simp only [Sys.agent, if_true] at e1 e0 f
+    rw [e1, ← e0]; exact f
+  exact C01_mirror_partial s0 _ hi hs' a b
+    (by unfold SingleAddr; rw [localAddrsOf_rounds false pre _ hfair, localAddrsOf_rounds true pre _ hfair]; exact h1)
+    (by unfold NoHairpin; rw [localAddrs_rounds pre _ hfair]; exact hh)
+    hfa hfb pa pb hpa hpb la ra lb rb hla hra hlb hrb
+
+open IceProofs.C01Live in
+/-- **C01 convergence with arbitrary extra deliveries and duplications between the rounds (partial).**  As
+`C01_converges_round_partial`, for EVERY family `N` of noise blocks: before each canonical round any number of
+deliveries and duplications of any datagram in flight, in any order (no loss, no clock advance, no API call).  The
+round bound is computed from the first tick after the first noise block; the controlling agent must have a Succeeded
+pair, or still a pair under budget on a `Link` after the first noise block. -/
+theorem C01_converges_noisy_rounds_partial (s0 : Sys) (pre : List SysEv) (hi : Sys.Init s0) (hf : FreshSel s0)
+    (hs : LocalsSane s0.nat pre) (c : Bool) (T0 H : Nat) (hr : ReadyD pre c T0 H (Sys.runs s0 pre))
+    (N : Nat → List SysEv) (hN : ∀ k, ∀ e ∈ N k, isNoise e = true)
+    (hstart : HasSucc (Sys.runs s0 pre) c ∨ BudgetPairD c (Sys.runs (Sys.runs s0 pre) (N 0)))
+    (hH : max (ntick c N 0 (Sys.runs s0 pre)) (nomTime c (Sys.runs s0 pre)) + 2000000000 ≤ H) :
+    ∃ n, 1 ≤ n ∧ n ≤ nroundBound c N (Sys.runs s0 pre) ∧
+      ∀ x, ((Sys.runs s0 (pre ++ nroundsEvs c N (n + 1) (Sys.runs s0 pre))).agent x).selected.isSome = true ∧
+           ((Sys.runs s0 (pre ++ nroundsEvs c N (n + 1) (Sys.runs s0 pre))).agent x).connState = .connected := by
+  have hri := ready_rinv hi hf hs hr
+  obtain ⟨n, h1, h2, h3⟩ := converge_bound_noisy hri N hN (hstart.imp id BudgetPairD.budget) hH
+  refine ⟨n, h1, h2, fun x => ?_⟩
+  rw [Sys.runs_append, ← nrounds_runs]
+  exact h3 x
+
+/-! ### Non-vacuity of the liveness hypotheses -/
+
+namespace LiveExample
+/-- 2 × 2 host candidates (A: 16, 17; B: 32, 33); nothing sent from 32 reaches 16 (a one-way link), and A cannot reach
+its own addresses -/
+def s0 : Sys := { a := { localUfrag := "ua", localPwd := "pa", tieBreaker := 5 },
+                  b := { tag := 1, localUfrag := "ub", localPwd := "pb", tieBreaker := 3 }, hasB := true,
+                  blocked := [(32, 16), (16, 16), (16, 17), (17, 16), (17, 17)] }
+def cA1 : Cand := { uid := 0, ty := 1, net := 0, addr := 16, prio := 200 }
+def cA2 : Cand := { uid := 0, ty := 1, net := 0, addr := 17, prio := 100 }
+def cB1 : Cand := { uid := 0, ty := 1, net := 0, addr := 32, prio := 200 }
+def cB2 : Cand := { uid := 0, ty := 1, net := 0, addr := 33, prio := 100 }
+/-- signalling and start (A controlling), then a lossy prefix: of the first checks one is dropped, one duplicated, one
+delivered, another dropped; nine datagrams are still in flight -/
+def pre : List SysEv :=
+  [.api false (.addLocal 0 cA1), .api false (.addLocal 0 cA2), .api true (.addLocal 0 cB1), .api true (.addLocal 0 cB2),
+   .api false (.addRemote 0 cB1), .api false (.addRemote 0 cB2), .api true (.addRemote 0 cA1), .api true (.addRemote 0 cA2),
+   .api false (.start 0 true "ub" "pb"), .api true (.start 0 false "ua" "pa"),
+   .drop 0, .dup 0, .deliver 1, .drop 2]
+end LiveExample
+
+open LiveExample IceProofs.C01Live in
+/-- every hypothesis of `C01_converges_round_partial` holds on this state (default timeouts: horizon 4 s, round bound
+10) … -/
+example : Sys.Init s0 ∧ FreshSel s0 ∧ LocalsSane s0.nat pre ∧ ReadyD pre false 0 4000000000 (Sys.runs s0 pre)
+    ∧ BudgetPairD false (Sys.runs s0 pre)
+    ∧ max (tickTime false 0 (Sys.runs s0 pre)) (nomTime false (Sys.runs s0 pre)) + 2000000000 ≤ 4000000000
+    ∧ roundBound false (Sys.runs s0 pre) = 10 ∧ (Sys.runs s0 pre).inflight.length = 9 := by
+  refine ⟨⟨rfl, rfl, rfl, rfl, rfl, rfl, rfl, rfl, rfl, rfl, rfl, rfl, rfl, rfl, rfl⟩, ?_⟩
+  decide
+
+set_option maxRecDepth 100000 in
+open LiveExample IceProofs.C01Live in
+/-- … and the model indeed converges (here already after two rounds, the host acceptance wait being 0): A selects its
+pair 17 → 32 (the return path of 16 → 32 is blocked), B the mirror pair 32 → 17. -/
+example : (rounds false 2 (Sys.runs s0 pre)).a.selected = some 2 ∧ (rounds false 2 (Sys.runs s0 pre)).b.selected = some 3
+    ∧ (rounds false 2 (Sys.runs s0 pre)).a.connState = .connected ∧ (rounds false 2 (Sys.runs s0 pre)).b.connState = .connected
+    ∧ (((rounds false 2 (Sys.runs s0 pre)).a.pairById 2).map fun p => (p.l, p.r)) = some (2, 3)
+    ∧ (((rounds false 2 (Sys.runs s0 pre)).b.pairById 3).map fun p => (p.l, p.r)) = some (1, 4) := by
+  decide
+
+open LiveExample IceProofs.C01Live in
+/-- the hypotheses of `C01_converges_noisy_rounds_partial` hold for the noise "duplicate the head, deliver the fourth,
+duplicate the second" before every round. -/
+example : (∀ k, ∀ e ∈ (fun _ : Nat => [SysEv.dup 0, .deliver 3, .dup 1]) k, isNoise e = true)
+    ∧ BudgetPairD false (Sys.runs (Sys.runs s0 pre) [.dup 0, .deliver 3, .dup 1])
+    ∧ max (ntick false (fun _ => [.dup 0, .deliver 3, .dup 1]) 0 (Sys.runs s0 pre)) (nomTime false (Sys.runs s0 pre)) + 2000000000
+        ≤ 4000000000 := by
+  refine ⟨fun _ e he => ?_, ?_⟩
+  · simp only [List.mem_cons, List.mem_singleton, List.not_mem_nil, or_false] at he
+    rcases he with rfl | rfl | rfl <;> rfl
+  · decide
 
 end IceProps.C01
